@@ -67,6 +67,12 @@ func partMode(name string) mode {
 	return modeResolvable
 }
 
+// steerEvery: a case is generated WITHOUT steering away from the classes of known findings once
+// in steerEvery cases, so that the classes stay observed (their failures must then be attributed
+// by the recognisers, item by item — see attribute). Set it very large to exclude the classes
+// by construction only.
+const steerEvery = 8
+
 func newModel(s *gast.Schema, op string) (*model, string) {
 	doc, errs := gqlparser.LoadQuery(s, op)
 	if errs != nil {
@@ -82,7 +88,7 @@ func genCase(rootReplace bool) func(t *rapid.T) Case {
 	return func(t *rapid.T) Case {
 		k := uniform(t, numFamilies, "family")
 		f := getFamily(k)
-		steer := uniform(t, 8, "steer") != 0
+		steer := uniform(t, steerEvery, "steer") != 0
 		var c Case
 		var m *model
 		for attempt := 0; ; attempt++ {
@@ -445,7 +451,9 @@ func recognisePlanFinding(u unfaithful) string {
 		return findingConcreteNoTypename
 	case u.kind == "possible-types" && u.emptyPossible:
 		return findingCopyPossible
-	case u.kind == "key-missing-in-plan" && u.crossParent && u.nestedListItem && !u.planHasKey:
+	case keyDiff && u.lostGuard:
+		return findingCopyPossible
+	case keyDiff && u.multiParent && u.nestedListItem:
 		return findingMergeNestedList
 	case keyDiff && u.crossAbove && u.planParentConds:
 		return findingMergeScalars
